@@ -144,19 +144,16 @@ IFStatement * IFStatement::parse(Parser& p, Context& ctx)
         delete exp;
         throw ParseError(EXC_PARSE_OTHER_S, "Boolean expression required for IF.");
       }
+      /* the statement owns the condition from now: it is released with the
+       * statement when the parsing of the clause fails */
+      s->_rules.push_back(std::make_pair(exp, nullptr));
       TokenPtr t = p.pop();
       if (t->code == ')')
-      {
-        delete exp;
         throw ParseError(EXC_PARSE_MM_PARENTHESIS, t);
-      }
       if (t->code != TOKEN_KEYWORD || t->text != KEYWORDS[STMT_THEN])
-      {
-        delete exp;
         throw ParseError(EXC_PARSE_OTHER_S, "Missing THEN keyword in IF statement.", t);
-      }
       Executable * exec = parse_clause(p, ctx, s);
-      s->_rules.push_back(std::make_pair(exp, exec));
+      s->_rules.back().second = exec;
       t = p.pop();
       if (t->text == KEYWORDS[STMT_ELSIF])
         continue; /* process next rule */
